@@ -82,7 +82,12 @@ TRUSTED = ["IEEE doubles: on the dyadic grid every sum/product of the real code 
            "Python `sorted` is a stable sort (modelled by List.mergeSort, also stable)"]
 ASSUMPTIONS = ["time stamps are non-zero (`if not ts` drops ts == 0 like a missing ts; modelled, excluded from the oracle)",
                "power samples are >= 0 (guaranteed by compute_power, C10); the bounds clause is false for negative powers",
-               "one power-sample stream: the context keeps a single `last_power_sample` for all pids"]
+               "one power-sample stream: the context keeps a single `last_power_sample` for all pids. Several ranks reach the "
+               "stage rank after rank; as long as their sampled ranges overlap in time (ranks of one aligned job) every period "
+               "lies between two samples of one rank and the end-to-end layer decides the partition clause on the pooled "
+               "timeline. For ranks sampled over DISJOINT time ranges the stage also forms a period across the gap (last sample "
+               "of one rank to first sample of the next; observed, design_probes/e11.py) - outside the property's quantifier "
+               "(one sample sequence) and not generated"]
 NOT_YET_PROVED = []
 
 Q = Fraction
